@@ -2,7 +2,19 @@
 """Prints a markdown table (one row per property) from the Props files and the evidence of the last runs: theorems, tie, cases, time."""
 import json, os, re
 H = os.path.dirname(os.path.dirname(os.path.abspath(__file__)))
-TRANSLATORS = {"C01": "etdrk, linops", "C02": "etdrk", "C03": "nonlin", "C06": "branches", "C09": "etdrk", "C13": "genutils", "C18": "icgen, guards", "C19": "etdrk", "C20": "guards", "C16": "guards"}
+def _translators(pid):
+    import os, re as _re
+    src = open(os.path.join(os.path.dirname(os.path.dirname(os.path.abspath(__file__))), "harness", "props", pid.lower() + ".py")).read()
+    names = sorted(set(_re.findall(r"from \.\.translate import (\w+) as", src)))
+    return ", ".join(names) if names else "-"
+
+
+class _T(dict):
+    def get(self, k, d=None):
+        return _translators(k)
+
+
+TRANSLATORS = _T()
 print("| property | theorems | translators (regenerated each run) | correspondence cases | witness cases | quick wall time |")
 print("|---|---|---|---|---|---|")
 for i in range(1, 21):
